@@ -281,3 +281,70 @@ def unpredictable_sources(allow: Dict[str, str]) -> List[dict]:
                            reason or f"{fi.key} line {n.lineno}: new use of {what}; its flow into observations / rewards / control has not been reviewed",
                            f"{what} flows only into identifiers / timestamps / logs"))
     return obs
+
+
+# ------------------------------------------------------------------- C03: output settings do not steer the random stream
+RNG_NAMES = {"randint", "choice", "choices", "random", "uniform", "shuffle", "sample", "integers", "normal", "randrange", "default_rng", "seed"}
+
+
+def _rng_consumers() -> set:
+    """Names of repository functions / properties that (transitively, by bare name) draw from a random generator."""
+    direct = set()
+    calls: Dict[str, set] = {}
+    for fi in _functions():
+        names = set()
+        for n in ast.walk(fi.node):
+            if isinstance(n, ast.Call):
+                f = n.func
+                if isinstance(f, ast.Attribute):
+                    base = f.value
+                    chain = ast.unparse(base)
+                    if f.attr in RNG_NAMES and ("random" in chain or "rng" in chain.lower()):
+                        direct.add(fi.name)
+                    names.add(f.attr)
+                elif isinstance(f, ast.Name):
+                    names.add(f.id)
+            elif isinstance(n, ast.Attribute):
+                names.add(n.attr)  # property reads
+        calls.setdefault(fi.name, set()).update(names)
+    consumers = set(direct)
+    changed = True
+    while changed:
+        changed = False
+        for fn, names in calls.items():
+            if fn not in consumers and names & consumers:
+                consumers.add(fn)
+                changed = True
+    return consumers
+
+
+def output_guarded_randomness() -> List[dict]:
+    """A block that runs only under an output/logging setting (SIM_OUTPUT.*, io.settings.*, save_step_metadata) must not
+    draw random numbers -- directly or through a repository function or property that does -- otherwise the seeded
+    stream, and with it the trajectory, depends on the logging settings."""
+    obs = []
+    consumers = None
+    for fi in _functions():
+        for n in ast.walk(fi.node):
+            if not isinstance(n, ast.If):
+                continue
+            test = ast.unparse(n.test)
+            if not ("SIM_OUTPUT" in test or "io.settings" in test or "save_step_metadata" in test or "save_agent_actions" in test):
+                continue
+            if consumers is None:
+                consumers = _rng_consumers()
+            hits = []
+            for st in n.body + n.orelse:
+                for m in ast.walk(st):
+                    if isinstance(m, ast.Attribute) and (m.attr in consumers or (m.attr in RNG_NAMES and "random" in ast.unparse(m.value))):
+                        hits.append(f"{ast.unparse(m)}@L{m.lineno}")
+                    elif isinstance(m, ast.Call) and isinstance(m.func, ast.Name) and m.func.id in consumers:
+                        hits.append(f"{m.func.id}()@L{m.lineno}")
+            name = f"output_guard@{fi.qualname}:L{n.lineno}"
+            if hits:
+                obs.append(_ob("output_guard", name, n.lineno, "failed",
+                               f"{fi.key} line {n.lineno}: code that runs only when `{test}` holds reaches a random draw ({', '.join(sorted(set(hits))[:4])}): "
+                               f"the random stream would depend on output settings", "no random draw under an output-setting guard"))
+            else:
+                obs.append(_ob("output_guard", name, n.lineno, "discharged", "", "no random draw under an output-setting guard"))
+    return obs
